@@ -16,9 +16,13 @@ import (
 	"net/http"
 	"net/http/httptest"
 	"net/netip"
+	"os"
+	"path/filepath"
 	"reflect"
+	"runtime"
 	"sort"
 	"strings"
+	"sync/atomic"
 	"testing"
 	"testing/fstest"
 	"time"
@@ -135,6 +139,13 @@ type plCfg struct {
 	// round 4 (C02 registry mode): the DHCP side of the client storage (the
 	// MAC of an address' lease); nil = client.EmptyDHCP.
 	ClientDHCP client.DHCP
+
+	// round 5 (protection histories): whether protection is in force by the
+	// LAST ACCEPTED SWITCH of the history (on / off / paused until an instant),
+	// stated by the harness from the requests it made; when set, the monitors
+	// judge by it, while ProtEnabled / Deadline keep rendering the raw pair the
+	// server holds (the input of the pipeline model).
+	ProtBySwitch *bool
 }
 
 // plList is a rule list of the lists mode.
@@ -147,6 +158,22 @@ type plList struct {
 	// the position of a list keeps being its URL's number in the model.
 	Gone bool
 	url  string
+
+	// round 5 (refresh mode): Rules are the rules of the list's STORED file;
+	// Src (when set) are the rules its source serves now; srcFail makes the
+	// source fail: 1 = status 500, 2 = body cut short under a longer
+	// Content-Length; realID is the list's ID in the server's configuration.
+	Src     []*vfRule
+	srcFail int
+	realID  int
+}
+
+// srcRules: what the list's source serves now.
+func (l *plList) srcRules() []*vfRule {
+	if l.Src != nil {
+		return l.Src
+	}
+	return l.Rules
 }
 
 // syncLists recomputes Block / Allow from the enabled lists, in
@@ -426,6 +453,14 @@ func (p *plClient) Coq() string {
 }
 
 func (c *plCfg) Desc() map[string]any {
+	d := c.desc0()
+	if c.ProtBySwitch != nil {
+		d["protection_by_last_switch"] = *c.ProtBySwitch
+	}
+	return d
+}
+
+func (c *plCfg) desc0() map[string]any {
 	return map[string]any{
 		"protection": c.ProtEnabled, "pause_deadline": []string{"none", "future", "past"}[c.Deadline],
 		"filtering": c.Filtering, "safebrowsing": c.SB, "parental": c.Par, "mode": string(c.Mode),
@@ -522,6 +557,23 @@ type plServer struct {
 	// was configured with (round 4, C02 registry mode: clients are added,
 	// updated and removed while the server runs).
 	storage *client.Storage
+
+	// round 5: the data directory of the filter (the stored list files), the
+	// number of ConfigModified calls of the DNS server (a handler makes one,
+	// enableProtectionAfterPause makes one), and the history constructor /
+	// leading arguments recordAsk uses for a query (protection and refresh
+	// histories).
+	dataDir  string
+	modified *atomic.Int64
+	askCtor  string
+	askPre   []string
+	// refresh mode (Run/PipeCase.CRefresh): the lists' sources change and
+	// fail between passes; ahead: a pass ended with "network error" after it
+	// had replaced a file, so the engines are behind the stored files until
+	// the next rebuild (the per-query monitors make no claim meanwhile).
+	refreshMode bool
+	ahead       bool
+	rf          *plRefresh
 }
 
 // listsClasses: where in a history of list changes the query about to be run sits.
@@ -616,6 +668,9 @@ func (ps *plServer) recordAsk(q *plQuery, o *plObs) {
 	if ps.queueMode {
 		ctor = "QAsk"
 	}
+	if ps.askCtor != "" {
+		ctor = ps.askCtor
+	}
 	var defs []vfDef
 	full := plCaseCoqShared("CPipe", ps, q, o, &defs)
 	// (CPipe cfg allow block sb par ss q ups up obs): the history step keeps ss q ups up obs
@@ -623,7 +678,7 @@ func (ps *plServer) recordAsk(q *plQuery, o *plObs) {
 	if len(parts) != 11 {
 		panic(fmt.Sprintf("case term has %d parts", len(parts)))
 	}
-	step := vfApp(ctor, parts[6:]...)
+	step := vfApp(ctor, append(append([]string{}, ps.askPre...), parts[6:]...)...)
 	for _, d := range defs {
 		if strings.Contains(step, d.Name) {
 			vfShare(&ps.histDefs, strings.TrimSuffix(d.Name, d.Name[strings.LastIndex(d.Name, "_"):]), d.Body)
@@ -877,6 +932,7 @@ func plNewServer(t *testing.T, c *plCfg) *plServer {
 	}
 
 	ql := &plQueryLog{}
+	modified := &atomic.Int64{}
 	s, err := NewServer(DNSCreateParams{
 		DHCPServer: &testDHCP{
 			OnEnabled: func() (ok bool) { return c.DHCPOn },
@@ -917,7 +973,7 @@ func plNewServer(t *testing.T, c *plCfg) *plServer {
 			EnableDNSSEC:     c.DNSSEC && !c.CacheOn,
 			CacheSize:        map[bool]uint32{false: 0, true: 1 << 20}[c.CacheOn],
 		},
-		ConfigModified: func() {},
+		ConfigModified: func() { modified.Add(1) },
 		ServePlainDNS:  true,
 	})
 	if err != nil {
@@ -946,7 +1002,8 @@ func plNewServer(t *testing.T, c *plCfg) *plServer {
 		s.dns64Pref = plDNS64Prefix
 	}
 
-	ps := &plServer{s: s, ups: ups, ql: ql, cfg: c, ss: ss, handlers: handlers, storage: storage}
+	ps := &plServer{s: s, ups: ups, ql: ql, cfg: c, ss: ss, handlers: handlers, storage: storage,
+		dataDir: fconf.DataDir, modified: modified}
 	if c.Lists != nil {
 		// the lists' source; every list is added through the web API (which
 		// downloads it and queues an engine initialisation), the way an
@@ -954,7 +1011,7 @@ func plNewServer(t *testing.T, c *plCfg) *plServer {
 		src := httptest.NewServer(http.HandlerFunc(func(w http.ResponseWriter, r *http.Request) {
 			for _, l := range c.Lists {
 				if strings.HasSuffix(l.url, r.URL.Path) {
-					_, _ = w.Write([]byte(vfRulesText(l.Rules)))
+					plServeList(w, l)
 					return
 				}
 			}
@@ -1557,6 +1614,9 @@ func plEffective(c *plCfg, q *plQuery) (protection, filteringOn, sb, par bool, s
 		protection = false
 	} else if c.Deadline == 2 {
 		protection = true
+	}
+	if c.ProtBySwitch != nil {
+		protection = *c.ProtBySwitch
 	}
 	filteringOn, sb, par = c.Filtering, c.SB, c.Par
 	if !c.SvcPaused {
@@ -2486,4 +2546,933 @@ func plRunQueue(t *testing.T, out *vfOut, r *vfRand, ps *plServer, steps int, na
 		ps.qAsk(out, genQ(n+"."), emit, "queue-final-sweep")
 	}
 	out.Emit(ps.historyCase())
+}
+
+// ---- round 5: the protection switch as part of the history
+// (Model/Protection.v, Run/PipeCase.CProt)
+//
+// The switch is operated through the REAL handlers (handleSetProtection with
+// and without a duration, handleSetConfig's protection_enabled member), read
+// through the real handleGetConfig and by every query; the clock is an input:
+// a deadline is an absolute instant, so "time passes" = the stored deadline is
+// moved back by the same amount (durations and advances are whole hours, the
+// history takes far less than an hour of real time, so every comparison of
+// the code falls on the same side as in virtual time).  The goroutine
+// enableProtectionAfterPause is awaited after every read that may have
+// started it (its ConfigModified call is counted, protectionUpdateInProgress
+// is read until it is false again: no sleep, nothing judged on timing).
+// The monitors judge every query by the LAST ACCEPTED SWITCH of the history
+// (plCfg.ProtBySwitch), stated from the requests the harness made.
+
+const plHourMS = int64(3600000)
+
+type plProt struct {
+	ps    *plServer
+	vnow  int64 // the virtual clock, milliseconds
+	steps []string
+	desc  []string
+	asks  int
+	// the last accepted switch: 0 on, 1 off, 2 paused until swUntil (virtual)
+	swKind  int
+	swUntil int64
+	// the history monitor: the first status read / raw pair that contradicts
+	// the last switch
+	bad     string
+	flag0   bool
+	until0  *int64
+	classes map[string]bool
+}
+
+// plStartProt starts a protection history on a server just built: the
+// configuration's pair is the initial state (Deadline 1 = +24 h, 2 = -1 h as
+// plNewServer sets them).
+func plStartProt(ps *plServer) *plProt {
+	pp := &plProt{ps: ps, flag0: ps.cfg.ProtEnabled, classes: map[string]bool{}}
+	switch ps.cfg.Deadline {
+	case 1:
+		d := 24 * plHourMS
+		pp.until0 = &d
+	case 2:
+		d := -plHourMS
+		pp.until0 = &d
+	}
+	switch {
+	case pp.until0 != nil:
+		pp.swKind, pp.swUntil = 2, *pp.until0
+	case !pp.flag0:
+		pp.swKind = 1
+	}
+	ps.askCtor = "PrAsk"
+	return pp
+}
+
+// expected: protection is in force now by the last accepted switch.
+func (pp *plProt) expected() bool {
+	switch pp.swKind {
+	case 0:
+		return true
+	case 1:
+		return false
+	default:
+		return pp.vnow >= pp.swUntil
+	}
+}
+
+func (pp *plProt) step(coq, desc string) {
+	pp.steps = append(pp.steps, coq)
+	if desc != "" {
+		pp.desc = append(pp.desc, desc)
+	}
+}
+
+// raw records the pair the server holds.
+func (pp *plProt) raw() {
+	flag, until := pp.ps.s.dnsFilter.ProtectionStatus()
+	pp.step(vfApp("PrRaw", vfBool(flag), vfBool(until != nil)), "")
+	pp.sync()
+}
+
+// sync brings the configuration the per-query cases are rendered from in line
+// with the pair the server holds (the input of the pipeline model) and with
+// the last accepted switch (what the monitors judge by).
+func (pp *plProt) sync() {
+	flag, until := pp.ps.s.dnsFilter.ProtectionStatus()
+	c := pp.ps.cfg
+	c.ProtEnabled, c.Deadline = flag, 0
+	if until != nil {
+		c.Deadline = 2
+		if time.Now().Before(*until) {
+			c.Deadline = 1
+		}
+	}
+	want := pp.expected()
+	c.ProtBySwitch = &want
+}
+
+// settle waits for enableProtectionAfterPause if a read has started it and
+// records its wake-up.
+func (pp *plProt) settle(t *testing.T, before int64) {
+	t.Helper()
+	giveUp := time.Now().Add(2 * time.Minute)
+	for pp.ps.s.protectionUpdateInProgress.Load() {
+		runtime.Gosched()
+		if time.Now().After(giveUp) {
+			t.Fatal("enableProtectionAfterPause did not finish")
+		}
+	}
+	if pp.ps.modified.Load() != before {
+		pp.step(vfApp("PrOp", "PWake", "true"), "the pause has run out: enableProtectionAfterPause")
+		pp.classes["prot-lazy-reenable-goroutine"] = true
+		pp.raw()
+	}
+}
+
+func plCall(h http.HandlerFunc, method, body string) (code int, text string) {
+	r := httptest.NewRequest(method, "http://agh.example/control/x", strings.NewReader(body))
+	r.Header.Set("Content-Type", "application/json")
+	w := httptest.NewRecorder()
+	h(w, r)
+	return w.Code, w.Body.String()
+}
+
+// set: POST /control/protection.  durMS = 0: no duration (the member is left
+// out or sent as 0).
+func (pp *plProt) set(t *testing.T, enabled bool, durMS int64, omitZero bool) {
+	t.Helper()
+	body := fmt.Sprintf(`{"enabled":%v,"duration":%d}`, enabled, durMS)
+	if durMS == 0 && omitZero {
+		body = fmt.Sprintf(`{"enabled":%v}`, enabled)
+	}
+	wasPaused := pp.swKind == 2 && pp.vnow < pp.swUntil
+	code, _ := plCall(pp.ps.s.handleSetProtection, http.MethodPost, body)
+	ok := code == http.StatusOK
+	pp.step(vfApp("PrOp", vfApp("PSet", vfZ(pp.vnow), vfBool(enabled), vfZ(durMS)), vfBool(ok)),
+		fmt.Sprintf("at %+dh POST /control/protection %s -> %d", pp.vnow/plHourMS, body, code))
+	switch {
+	case !ok:
+		pp.classes["prot-set-refused"] = true
+	case durMS > 0:
+		pp.swKind, pp.swUntil = 2, pp.vnow+durMS
+		pp.classes["prot-pause"] = true
+	case enabled:
+		pp.swKind = 0
+		pp.classes["prot-set-on"] = true
+		if wasPaused {
+			pp.classes["prot-reenable-during-pause"] = true
+		}
+	default:
+		pp.swKind = 1
+		pp.classes["prot-set-off"] = true
+		if wasPaused {
+			pp.classes["prot-plain-off-during-pause"] = true
+		}
+	}
+	if ok != !(durMS > 0 && enabled) && pp.bad == "" {
+		pp.bad = fmt.Sprintf("POST /control/protection %s answered %d", body, code)
+	}
+	pp.raw()
+}
+
+// conf: POST /control/dns_config {"protection_enabled": …}.
+func (pp *plProt) conf(t *testing.T, enabled bool) {
+	t.Helper()
+	body := fmt.Sprintf(`{"protection_enabled":%v}`, enabled)
+	wasPaused := pp.swKind == 2 && pp.vnow < pp.swUntil
+	code, text := plCall(pp.ps.s.handleSetConfig, http.MethodPost, body)
+	if code != http.StatusOK {
+		t.Fatalf("dns_config %s: %d %s", body, code, text)
+	}
+	pp.step(vfApp("PrOp", vfApp("PConf", vfBool(enabled)), "true"),
+		fmt.Sprintf("at %+dh POST /control/dns_config %s", pp.vnow/plHourMS, body))
+	pp.swKind = 1
+	if enabled {
+		pp.swKind = 0
+	}
+	pp.classes["prot-dns-config"] = true
+	if wasPaused {
+		pp.classes["prot-dns-config-during-pause"] = true
+	}
+	pp.raw()
+}
+
+// advance lets h hours pass: a pending deadline comes closer by the same amount.
+func (pp *plProt) advance(hours int64) {
+	pp.vnow += hours * plHourMS
+	flag, until := pp.ps.s.dnsFilter.ProtectionStatus()
+	if until != nil {
+		d := until.Add(-time.Duration(hours) * time.Hour)
+		pp.ps.s.dnsFilter.SetProtectionStatus(flag, &d)
+	}
+	pp.desc = append(pp.desc, fmt.Sprintf("%d h pass", hours))
+	if pp.swKind == 2 && pp.vnow >= pp.swUntil {
+		pp.classes["prot-pause-runs-out"] = true
+	}
+	pp.sync()
+}
+
+// status: GET /control/dns_info, "protection_enabled" as reported.
+func (pp *plProt) status(t *testing.T) {
+	t.Helper()
+	before := pp.ps.modified.Load()
+	code, text := plCall(pp.ps.s.handleGetConfig, http.MethodGet, "")
+	if code != http.StatusOK {
+		t.Fatalf("dns_info: %d %s", code, text)
+	}
+	var resp struct {
+		Enabled bool `json:"protection_enabled"`
+	}
+	if err := json.Unmarshal([]byte(text), &resp); err != nil {
+		t.Fatalf("dns_info: %v", err)
+	}
+	pp.step(vfApp("PrStatus", vfZ(pp.vnow), vfBool(resp.Enabled)),
+		fmt.Sprintf("at %+dh GET /control/dns_info -> protection_enabled=%v", pp.vnow/plHourMS, resp.Enabled))
+	if want := pp.expected(); resp.Enabled != want && pp.bad == "" {
+		pp.bad = fmt.Sprintf("at %+dh GET /control/dns_info reports protection_enabled=%v, but by the last accepted switch (%s) protection is %s",
+			pp.vnow/plHourMS, resp.Enabled, pp.switchDesc(), map[bool]string{true: "in force", false: "not in force"}[want])
+	}
+	pp.settle(t, before)
+}
+
+func (pp *plProt) switchDesc() string {
+	switch pp.swKind {
+	case 0:
+		return "switched on"
+	case 1:
+		return "switched off"
+	default:
+		return fmt.Sprintf("paused until %+dh", pp.swUntil/plHourMS)
+	}
+}
+
+// ask runs a query at the current instant: a case of its own (the model of
+// the pipeline for the raw pair; the monitors for the last switch) and a step
+// of the history.
+func (pp *plProt) ask(t *testing.T, q *plQuery, emit func(ps *plServer, q *plQuery, extra ...string), extra ...string) {
+	t.Helper()
+	ps := pp.ps
+	cl := append([]string{"prot-ask"}, extra...)
+	if pp.expected() {
+		cl = append(cl, "prot-ask-in-force")
+		if pp.swKind == 2 {
+			cl = append(cl, "prot-ask-after-pause-ran-out")
+		}
+	} else {
+		cl = append(cl, "prot-ask-not-in-force")
+		if pp.swKind == 2 {
+			cl = append(cl, "prot-ask-during-pause")
+		}
+	}
+	if pp.classes["prot-reenable-during-pause"] && pp.swKind == 0 {
+		cl = append(cl, "prot-ask-after-reenable-during-pause")
+	}
+	before := ps.modified.Load()
+	emit(ps, q, cl...)
+	ps.askPre = []string{vfZ(pp.vnow)}
+	// recordAsk appends to the server's history; the protection history keeps its own
+	n := len(ps.histSteps)
+	ps.recordAsk(q, &ps.last)
+	pp.steps = append(pp.steps, ps.histSteps[n:]...)
+	ps.histSteps = ps.histSteps[:n]
+	pp.desc = append(pp.desc, fmt.Sprintf("at %+dh ask %s %s from %s", pp.vnow/plHourMS, q.Name, dns.TypeToString[q.QType], q.Addr))
+	pp.asks++
+	pp.settle(t, before)
+}
+
+// historyCase: the whole history as one Run/PipeCase.CProt case.
+func (pp *plProt) historyCase() vfCase {
+	ps := pp.ps
+	c := ps.cfg
+	until := vfOpt("Z", pp.until0 != nil, "")
+	if pp.until0 != nil {
+		until = vfOpt("Z", true, vfZ(*pp.until0))
+	}
+	defs := append([]vfDef{}, ps.histDefs...)
+	saved := c.ProtBySwitch
+	c.ProtBySwitch = nil
+	cfgCoq := c.Coq()
+	desc := c.Desc()
+	c.ProtBySwitch = saved
+	coq := vfApp("CProt", cfgCoq, vfRulesCoq(c.Allow), vfRulesCoq(c.BlockRules()), vfBytesList(c.SBHosts), vfBytesList(c.ParHosts),
+		vfBool(pp.flag0), until, vfList("prstep", pp.steps))
+	classes := []string{"prot-history"}
+	for k := range pp.classes {
+		classes = append(classes, k)
+	}
+	sort.Strings(classes)
+	vc := vfCase{Coq: coq, Defs: defs, Nontrivial: pp.asks > 0, Classes: classes, MonitorOK: pp.bad == "",
+		Desc: map[string]any{"config": desc, "steps": pp.desc}}
+	if pp.bad != "" {
+		vc.MonitorMsg = pp.bad + fmt.Sprintf(" [history: %s]", strings.Join(pp.desc, "; "))
+		vc.FindingKey = "prot-" + vfHash(pp.desc)
+	}
+	return vc
+}
+
+// plProtCfg draws a configuration for a protection history: mostly plain
+// (filtering on, plain block rules, no exceptions), so that the reference
+// verdicts speak; the initial pair varies.
+func plProtCfg(r *vfRand, targets []string) *plCfg {
+	c := plGenCfg(r, targets)
+	if r.Chance(3, 4) {
+		c.Filtering = true
+		c.Allow, c.Svcs, c.SB, c.Par, c.Clients = nil, nil, false, false, nil
+		for _, ru := range c.BlockRules() {
+			ru.White, ru.Badfilter = false, false
+		}
+		c.Block = append(c.Block, &vfRule{ID: 190, Pattern: "||" + vfPick(r, targets) + "^"})
+	}
+	c.DNSSEC = false
+	switch r.Intn(8) {
+	case 0:
+		c.ProtEnabled, c.Deadline = false, 0
+	case 1:
+		c.ProtEnabled, c.Deadline = false, 1
+	case 2:
+		c.ProtEnabled, c.Deadline = false, 2
+	default:
+		c.ProtEnabled, c.Deadline = true, 0
+	}
+	return c
+}
+
+// plRunProt runs a random protection history and emits it.
+func plRunProt(t *testing.T, out *vfOut, r *vfRand, ps *plServer, steps int, genQ func() *plQuery,
+	emit func(ps *plServer, q *plQuery, extra ...string)) {
+	pp := plStartProt(ps)
+	pp.raw()
+	for k := 0; k < steps; k++ {
+		paused := pp.swKind == 2 && pp.vnow < pp.swUntil
+		switch x := r.Intn(20); {
+		case x < 3:
+			pp.set(t, false, int64(1+r.Intn(3))*plHourMS, false)
+		case x < 5 || (paused && x < 8):
+			// (aimed: a re-enable while a pause is pending)
+			pp.set(t, true, 0, r.Bool())
+		case x < 6:
+			pp.set(t, false, 0, r.Bool())
+		case x < 7:
+			pp.set(t, true, int64(1+r.Intn(2))*plHourMS, false)
+		case x < 9:
+			pp.conf(t, r.Bool())
+		case x < 12:
+			pp.advance(int64(1 + r.Intn(3)))
+		case x < 13:
+			pp.status(t)
+		default:
+			pp.ask(t, genQ(), emit)
+		}
+	}
+	pp.ask(t, genQ(), emit)
+	for k, v := range pp.classes {
+		if v {
+			out.Class(k)
+		}
+	}
+	out.Emit(pp.historyCase())
+}
+
+// plProtPrelude: one history per situation the property names.  mkServer
+// builds a server with protection on and a rule set the caller's queries are
+// about; blockedQ / otherQ draw a query the rules concern (a blocked name, or
+// an answer revealing one) and one they do not.
+func plProtPrelude(t *testing.T, out *vfOut, mkServer func(protOn bool, deadline int) *plServer, blockedQ func() *plQuery,
+	emit func(ps *plServer, q *plQuery, extra ...string)) {
+	run := func(protOn bool, deadline int, script func(pp *plProt, ask func(extra ...string))) {
+		ps := mkServer(protOn, deadline)
+		pp := plStartProt(ps)
+		pp.raw()
+		script(pp, func(extra ...string) { pp.ask(t, blockedQ(), emit, extra...) })
+		for k, v := range pp.classes {
+			if v {
+				out.Class(k)
+			}
+		}
+		out.Emit(pp.historyCase())
+	}
+	// on -> paused for an hour -> switched on again before the hour is up
+	for _, omit := range []bool{true, false} {
+		run(true, 0, func(pp *plProt, ask func(extra ...string)) {
+			ask("prelude-prot-on")
+			pp.set(t, false, plHourMS, false)
+			pp.status(t)
+			ask("prelude-prot-paused")
+			pp.set(t, true, 0, omit)
+			pp.status(t)
+			ask("prelude-prot-reenabled-during-pause")
+			pp.set(t, false, 0, omit)
+			ask("prelude-prot-plain-off")
+			pp.set(t, true, 0, omit)
+			ask("prelude-prot-plain-on-again")
+			pp.advance(2)
+			ask("prelude-prot-after-the-old-deadline")
+		})
+	}
+	// a pause that runs out by itself (the goroutine), then a new pause
+	run(true, 0, func(pp *plProt, ask func(extra ...string)) {
+		pp.set(t, false, 2*plHourMS, false)
+		pp.advance(1)
+		ask("prelude-prot-pause-still-running")
+		pp.advance(1)
+		ask("prelude-prot-pause-ran-out-first-query")
+		ask("prelude-prot-pause-ran-out")
+		pp.set(t, false, plHourMS, false)
+		ask("prelude-prot-second-pause")
+		pp.advance(3)
+		pp.status(t)
+		ask("prelude-prot-second-pause-ran-out")
+	})
+	// a pause replaced by a plain off: stays off past the old deadline
+	run(true, 0, func(pp *plProt, ask func(extra ...string)) {
+		pp.set(t, false, plHourMS, false)
+		pp.set(t, false, 0, true)
+		pp.advance(2)
+		ask("prelude-prot-off-replaces-pause")
+		pp.status(t)
+	})
+	// a refused request changes nothing
+	run(true, 0, func(pp *plProt, ask func(extra ...string)) {
+		pp.set(t, true, plHourMS, false)
+		ask("prelude-prot-refused-request")
+		pp.set(t, false, plHourMS, false)
+		pp.set(t, true, 2*plHourMS, false)
+		ask("prelude-prot-refused-request-during-pause")
+	})
+	// dns_config during a pause: on (the pause is over), off (stays off past the deadline)
+	run(true, 0, func(pp *plProt, ask func(extra ...string)) {
+		pp.set(t, false, plHourMS, false)
+		pp.conf(t, true)
+		pp.status(t)
+		ask("prelude-prot-dns-config-on-during-pause")
+		pp.set(t, false, plHourMS, false)
+		pp.conf(t, false)
+		pp.advance(2)
+		pp.status(t)
+		ask("prelude-prot-dns-config-off-during-pause")
+		pp.conf(t, true)
+		ask("prelude-prot-dns-config-on")
+	})
+	// servers started inside a pause and after one
+	run(false, 1, func(pp *plProt, ask func(extra ...string)) {
+		ask("prelude-prot-started-paused")
+		pp.set(t, true, 0, true)
+		ask("prelude-prot-started-paused-reenabled")
+	})
+	run(false, 2, func(pp *plProt, ask func(extra ...string)) {
+		ask("prelude-prot-started-after-pause")
+		pp.set(t, false, 0, true)
+		ask("prelude-prot-started-after-pause-off")
+	})
+}
+
+// ---- round 5: refresh passes over changing and failing sources
+// (Model/PipelineRefresh.v over C15's Model/Refresh.v, Run/PipeCase.CRefresh)
+//
+// A refresh-mode server is a lists-mode server whose lists' sources change
+// their contents and fail (status 500, body cut short) between passes; the
+// passes go through the REAL refresh path: POST /control/filtering/refresh
+// (one array, forced) and tryRefreshFilters(block, allow, force) as the
+// periodic refresh calls it (shim VerifTryRefresh).  plList.Rules are the
+// rules of the list's STORED file as the harness expects it from what the
+// sources delivered; cfg.Block / cfg.Allow (syncLists) are therefore the
+// rules of the stored files of the enabled lists, which is what the
+// per-query monitors hold the server to, except while a pass that ended with
+// a network error (every attempted list of an array failed) has left files
+// ahead of the engines (plServer.ahead: no claim, C15's
+// network-error-files-ahead-of-engine).
+
+type plRefresh struct {
+	ocs0    []string
+	texts   map[string]string // stored text -> the rules in it (Coq)
+	textSeq []string
+	steps   []string
+	desc    []string
+	asks    int
+	bad     string
+	classes map[string]bool
+}
+
+func plServeList(w http.ResponseWriter, l *plList) {
+	body := vfRulesText(l.srcRules())
+	switch l.srcFail {
+	case 1:
+		w.WriteHeader(http.StatusInternalServerError)
+		_, _ = w.Write([]byte("||not.the.list.example^\n"))
+	case 2:
+		hj, ok := w.(http.Hijacker)
+		if !ok {
+			return
+		}
+		conn, buf, err := hj.Hijack()
+		if err != nil {
+			return
+		}
+		fmt.Fprintf(buf, "HTTP/1.1 200 OK\r\nContent-Type: text/plain\r\nContent-Length: %d\r\n\r\n", len(body)+9)
+		_, _ = buf.WriteString(body[:plCutAt(body)])
+		_ = buf.Flush()
+		_ = conn.Close()
+	default:
+		_, _ = w.Write([]byte(body))
+	}
+}
+
+// plCutAt: where a cut body ends (after its first line, so that a complete
+// rule has been delivered when the read fails).
+func plCutAt(body string) int {
+	if i := strings.IndexByte(body, '\n'); i >= 0 && i+1 < len(body) {
+		return i + 1
+	}
+	return len(body) / 2
+}
+
+func plSrcOutcomeCoq(l *plList) string {
+	body := vfRulesText(l.srcRules())
+	switch l.srcFail {
+	case 1:
+		return "SrcFail"
+	case 2:
+		return vfApp("SrcBody", vfBytes(body[:plCutAt(body)]), "true")
+	default:
+		return vfApp("SrcBody", vfBytes(body), "false")
+	}
+}
+
+// plStartRefresh turns a lists-mode server just built (every list added and
+// enabled through add_url) into a refresh-mode one.
+func plStartRefresh(t *testing.T, ps *plServer) {
+	t.Helper()
+	rf := &plRefresh{texts: map[string]string{}, classes: map[string]bool{}}
+	ps.rf, ps.refreshMode, ps.askCtor = rf, true, "RfAsk"
+	for i, l := range ps.cfg.Lists {
+		rf.ocs0 = append(rf.ocs0, vfPair(vfN(uint64(i)), plSrcOutcomeCoq(l)))
+		rf.know(ps, l.Rules)
+	}
+	// the lists' IDs, from GET /control/filtering/status
+	h := ps.handlers[http.MethodGet+" /control/filtering/status"]
+	if h == nil {
+		t.Fatal("no handler registered for GET /control/filtering/status")
+	}
+	code, text := plCall(h, http.MethodGet, "")
+	if code != http.StatusOK {
+		t.Fatalf("filtering/status: %d %s", code, text)
+	}
+	var st struct {
+		Filters, WhitelistFilters []struct {
+			URL string `json:"url"`
+			ID  int    `json:"id"`
+		}
+	}
+	dec := json.NewDecoder(strings.NewReader(text))
+	var raw map[string]json.RawMessage
+	if err := dec.Decode(&raw); err != nil {
+		t.Fatalf("filtering/status: %v", err)
+	}
+	_ = json.Unmarshal(raw["filters"], &st.Filters)
+	_ = json.Unmarshal(raw["whitelist_filters"], &st.WhitelistFilters)
+	for _, l := range ps.cfg.Lists {
+		for _, f := range append(st.Filters, st.WhitelistFilters...) {
+			if f.URL == l.url {
+				l.realID = f.ID
+			}
+		}
+		if l.realID == 0 {
+			t.Fatalf("list %s not reported by filtering/status: %s", l.Name, text)
+		}
+	}
+	rf.files(ps)
+}
+
+// know registers a stored text with the rules urlfilter reads in it.
+func (rf *plRefresh) know(ps *plServer, rs []*vfRule) {
+	text := vfRulesText(rs)
+	if _, ok := rf.texts[text]; ok {
+		return
+	}
+	rf.texts[text] = vfShare(&ps.histDefs, "pl_tx", vfRulesCoq(rs))
+	rf.textSeq = append(rf.textSeq, text)
+}
+
+func (rf *plRefresh) step(coq, desc string) {
+	rf.steps = append(rf.steps, coq)
+	if desc != "" {
+		rf.desc = append(rf.desc, desc)
+	}
+}
+
+func (rf *plRefresh) fail(msg string) {
+	if rf.bad == "" {
+		rf.bad = msg
+	}
+}
+
+// files reads every list's stored file from the disk: a step of the history
+// (the model's files must be these) and a check of the harness' own
+// expectation (the last text the list's source delivered in full and changed).
+func (rf *plRefresh) files(ps *plServer) {
+	var items []string
+	for i, l := range ps.cfg.Lists {
+		data, err := os.ReadFile(filepath.Join(ps.dataDir, "filters", fmt.Sprintf("%d.txt", l.realID)))
+		f := vfOpt("bytes", err == nil, "")
+		if err == nil {
+			f = vfOpt("bytes", true, vfBytes(string(data)))
+		}
+		items = append(items, vfPair(vfN(uint64(i)), f))
+		if want := vfRulesText(l.Rules); err != nil || string(data) != want {
+			rf.fail(fmt.Sprintf("the stored file of list %s holds %q, its source last delivered %q", l.Name, string(data), want))
+		}
+	}
+	rf.step(vfApp("RfFiles", vfList("N * option bytes", items)), "")
+}
+
+func (rf *plRefresh) ocs(ps *plServer) string {
+	var items []string
+	for i, l := range ps.cfg.Lists {
+		items = append(items, vfPair(vfN(uint64(i)), plSrcOutcomeCoq(l)))
+	}
+	return vfList("N * Refresh.outcome", items)
+}
+
+// rfPass runs one refresh pass.  viaHandler: POST /control/filtering/refresh
+// (exactly one array, forced); else tryRefreshFilters as the periodic refresh
+// calls it.
+func (ps *plServer) rfPass(t *testing.T, out *vfOut, block, allow, force, viaHandler bool) {
+	t.Helper()
+	rf := ps.rf
+	c := ps.cfg
+	// what the sources will do, by the harness' own reading
+	nChanged, netErr, anyFail := 0, false, false
+	var changed []*plList
+	for _, white := range []bool{false, true} {
+		if (white && !allow) || (!white && !block) {
+			continue
+		}
+		attempted, failed := 0, 0
+		for _, l := range c.Lists {
+			if l.White != white || !l.On || l.Gone {
+				continue
+			}
+			attempted++
+			switch {
+			case l.srcFail != 0:
+				failed++
+				anyFail = true
+			case vfRulesText(l.srcRules()) != vfRulesText(l.Rules):
+				changed = append(changed, l)
+			}
+		}
+		if attempted > 0 && failed == attempted {
+			netErr = true
+		}
+	}
+	nChanged = len(changed)
+	ocs := rf.ocs(ps)
+	var updated int
+	obsNet := vfOpt("bool", false, "")
+	how := "periodic refresh"
+	if viaHandler {
+		code, text := ps.post(t, "/control/filtering/refresh", map[string]any{"whitelist": allow})
+		if code != http.StatusOK {
+			t.Fatalf("filtering/refresh: %d %s", code, text)
+		}
+		var resp struct {
+			Updated int `json:"updated"`
+		}
+		if err := json.Unmarshal([]byte(text), &resp); err != nil {
+			t.Fatalf("filtering/refresh: %v", err)
+		}
+		updated = resp.Updated
+		how = fmt.Sprintf("POST /control/filtering/refresh whitelist=%v", allow)
+		out.Class("refresh-pass-handler")
+	} else {
+		n, ne, ok := ps.s.dnsFilter.VerifTryRefresh(block, allow, force)
+		if !ok {
+			t.Fatal("tryRefreshFilters: a refresh is already running")
+		}
+		updated = n
+		obsNet = vfOpt("bool", true, vfBool(ne))
+		how = fmt.Sprintf("tryRefreshFilters(block=%v, allow=%v, force=%v)", block, allow, force)
+		out.Class("refresh-pass-periodic")
+	}
+	var srcDesc []string
+	for _, l := range c.Lists {
+		if !l.On || l.Gone || (l.White && !allow) || (!l.White && !block) {
+			continue
+		}
+		switch {
+		case l.srcFail == 1:
+			srcDesc = append(srcDesc, l.Name+": status 500")
+		case l.srcFail == 2:
+			srcDesc = append(srcDesc, l.Name+": body cut short")
+		case vfRulesText(l.srcRules()) != vfRulesText(l.Rules):
+			srcDesc = append(srcDesc, fmt.Sprintf("%s: new contents %q", l.Name, vfRuleTexts(l.srcRules())))
+		default:
+			srcDesc = append(srcDesc, l.Name+": same contents")
+		}
+	}
+	rf.step(vfApp("RfPass", vfBool(block), vfBool(allow), vfBool(force), ocs, vfN(uint64(updated)), obsNet),
+		fmt.Sprintf("%s [%s] -> %d updated", how, strings.Join(srcDesc, "; "), updated))
+	// the files of the lists whose sources delivered new contents are replaced
+	// in any case
+	for _, l := range changed {
+		l.Rules = append([]*vfRule{}, l.srcRules()...)
+	}
+	want := nChanged
+	switch {
+	case netErr:
+		want = 0
+		out.Class("refresh-pass-all-of-an-array-failed")
+		if nChanged > 0 {
+			ps.ahead = true
+			out.Class("refresh-pass-net-error-files-ahead")
+		}
+	case nChanged > 0:
+		ps.ahead = false
+		out.Class("refresh-pass-updated")
+		if anyFail {
+			out.Class("refresh-pass-partial-failure-with-update")
+			rf.classes["partial"] = true
+		}
+	default:
+		out.Class("refresh-pass-no-update")
+		if anyFail {
+			out.Class("refresh-pass-partial-failure-no-update")
+		}
+	}
+	if updated != want {
+		rf.fail(fmt.Sprintf("%s reported %d updated lists; the sources of %d attempted lists delivered new contents [%s]",
+			how, updated, want, strings.Join(srcDesc, "; ")))
+	}
+	c.syncLists()
+	ps.changes++
+	rf.files(ps)
+}
+
+// rfSwitch toggles list i through POST /control/filtering/set_url; switching
+// on downloads the list again.
+func (ps *plServer) rfSwitch(t *testing.T, out *vfOut, i int) {
+	t.Helper()
+	rf := ps.rf
+	l := ps.cfg.Lists[i]
+	on := !l.On
+	code, _ := ps.post(t, "/control/filtering/set_url", map[string]any{
+		"url": l.url, "whitelist": l.White,
+		"data": map[string]any{"name": l.Name, "url": l.url, "enabled": on},
+	})
+	ok := code == http.StatusOK
+	wantOK := !on || l.srcFail == 0
+	rf.step(vfApp("RfSwitch", vfBool(l.White), vfN(uint64(i)), vfBytes(l.Name), vfBool(on), plSrcOutcomeCoq(l), vfBool(ok)),
+		fmt.Sprintf("set_url %s enabled=%v -> %d", l.Name, on, code))
+	if ok != wantOK {
+		rf.fail(fmt.Sprintf("set_url %s enabled=%v answered %d (source failing: %v)", l.Name, on, code, l.srcFail != 0))
+	}
+	if ok {
+		// the handler queues the rebuild; the harness plays the loop's part
+		ps.runPending(t)
+		if on {
+			l.Rules = append([]*vfRule{}, l.srcRules()...)
+			out.Class("refresh-switch-on")
+		} else {
+			out.Class("refresh-switch-off")
+			if ps.wasOff == nil {
+				ps.wasOff = map[int]bool{}
+			}
+			ps.wasOff[i] = true
+		}
+		l.On = on
+		ps.ahead = false
+	} else {
+		out.Class("refresh-switch-on-failing-source")
+	}
+	ps.cfg.syncLists()
+	ps.changes++
+	rf.files(ps)
+}
+
+// rfSource changes what the source of list i serves / how it fails.
+func (ps *plServer) rfSource(i int, rs []*vfRule, fail int) {
+	l := ps.cfg.Lists[i]
+	if rs != nil {
+		l.Src = rs
+		ps.rf.know(ps, rs)
+	}
+	l.srcFail = fail
+}
+
+// rfAsk runs a query: a case of its own unless files are ahead of the
+// engines, a step of the history in any case.
+func (ps *plServer) rfAsk(out *vfOut, q *plQuery, emit func(ps *plServer, q *plQuery, extra ...string), extra ...string) {
+	if !ps.ahead {
+		cl := append(ps.listsClasses(), extra...)
+		cl = append(cl, "refresh-ask")
+		if ps.rf.classes["partial"] {
+			cl = append(cl, "refresh-ask-after-partial-failure")
+		}
+		emit(ps, q, cl...)
+	} else {
+		ps.last = ps.run(q)
+		out.Class("refresh-ask-files-ahead-of-engine")
+		for _, e := range extra {
+			out.Class(e)
+		}
+	}
+	n := len(ps.histSteps)
+	ps.recordAsk(q, &ps.last)
+	ps.rf.steps = append(ps.rf.steps, ps.histSteps[n:]...)
+	ps.histSteps = ps.histSteps[:n]
+	ps.rf.desc = append(ps.rf.desc, ps.histDesc[len(ps.histDesc)-1])
+	ps.rf.asks++
+}
+
+// refreshCase: the whole history as one Run/PipeCase.CRefresh case.
+func (ps *plServer) refreshCase() vfCase {
+	rf := ps.rf
+	c := ps.cfg
+	var bl, al, texts []string
+	for i, l := range c.Lists {
+		p := vfPair(vfN(uint64(i)), vfBytes(l.Name))
+		if l.White {
+			al = append(al, p)
+		} else {
+			bl = append(bl, p)
+		}
+	}
+	for _, tx := range rf.textSeq {
+		texts = append(texts, vfPair(vfBytes(tx), rf.texts[tx]))
+	}
+	coq := vfApp("CRefresh", ps.histCfg, vfRulesCoq(c.Custom), vfList("N * bytes", bl), vfList("N * bytes", al),
+		vfList("N * Refresh.outcome", rf.ocs0), vfList("bytes * list rule", texts),
+		vfBytesList(c.SBHosts), vfBytesList(c.ParHosts), vfList("rfstep", rf.steps))
+	vc := vfCase{Coq: coq, Defs: append([]vfDef{}, ps.histDefs...), Nontrivial: rf.asks > 0, Classes: []string{"refresh-history"},
+		MonitorOK: rf.bad == "", Desc: map[string]any{"config": c.Desc(), "steps": rf.desc}}
+	if rf.bad != "" {
+		vc.MonitorMsg = rf.bad + fmt.Sprintf(" [history: %s]", strings.Join(rf.desc, "; "))
+		vc.FindingKey = "refresh-" + vfHash(rf.desc)
+	}
+	return vc
+}
+
+// plNewContents draws new contents for a list aimed at its stored rules: a
+// plain "||name^" rule for a name more, a rule less, or other rules.
+func plNewContents(r *vfRand, l *plList, names []string, id int) []*vfRule {
+	cur := l.srcRules()
+	switch k := r.Intn(4); {
+	case k < 2 || len(cur) < 2:
+		n := vfPick(r, names)
+		return append(append([]*vfRule{}, cur...), &vfRule{ID: id, Pattern: "||" + n + "^", White: l.White && r.Bool()})
+	case k < 3:
+		i := r.Intn(len(cur))
+		return append(append([]*vfRule{}, cur[:i]...), cur[i+1:]...)
+	default:
+		return []*vfRule{{ID: id, Pattern: "||" + vfPick(r, names) + "^", White: l.White && r.Bool()}}
+	}
+}
+
+// plRunRefresh runs a random refresh history and emits it; at the end every
+// source answers and delivers something new, a pass runs, and every name of
+// the universe is asked.
+func plRunRefresh(t *testing.T, out *vfOut, r *vfRand, ps *plServer, steps int, names []string, genQ func(name string) *plQuery,
+	emit func(ps *plServer, q *plQuery, extra ...string)) {
+	plStartRefresh(t, ps)
+	c := ps.cfg
+	id := 400
+	pass := func() {
+		switch r.Intn(4) {
+		case 0:
+			ps.rfPass(t, out, true, false, true, true)
+		case 1:
+			ps.rfPass(t, out, false, true, true, true)
+		case 2:
+			ps.rfPass(t, out, true, true, false, false)
+		default:
+			ps.rfPass(t, out, true, true, true, false)
+		}
+	}
+	for k := 0; k < steps; k++ {
+		switch x := r.Intn(20); {
+		case x < 5:
+			i := r.Intn(len(c.Lists))
+			id++
+			ps.rfSource(i, plNewContents(r, c.Lists[i], names, id), c.Lists[i].srcFail)
+		case x < 8:
+			i := r.Intn(len(c.Lists))
+			ps.rfSource(i, nil, []int{0, 1, 2, 1}[r.Intn(4)])
+		case x < 12:
+			pass()
+		case x < 13:
+			ps.rfSwitch(t, out, r.Intn(len(c.Lists)))
+		default:
+			ps.rfAsk(out, genQ(vfMixCase(r, vfPick(r, names))+"."), emit)
+		}
+	}
+	// one source keeps failing half of the time (if another enabled list of
+	// its array answers); the others answer, one of them with something new:
+	// the pass must bring the engines up to the files
+	keep := -1
+	if r.Bool() {
+		keep = r.Intn(len(c.Lists))
+	}
+	for i, l := range c.Lists {
+		fail := 0
+		if i == keep {
+			for j, m := range c.Lists {
+				if j != i && m.White == l.White && m.On {
+					fail = 1 + r.Intn(2)
+				}
+			}
+		}
+		ps.rfSource(i, nil, fail)
+	}
+	for i, l := range c.Lists {
+		if l.On && l.srcFail == 0 {
+			id++
+			ps.rfSource(i, plNewContents(r, l, names, id), 0)
+			if vfRulesText(l.srcRules()) != vfRulesText(l.Rules) {
+				break
+			}
+		}
+	}
+	ps.rfPass(t, out, true, true, true, false)
+	for _, n := range names {
+		ps.rfAsk(out, genQ(n+"."), emit, "refresh-final-sweep")
+	}
+	out.Emit(ps.refreshCase())
 }
